@@ -44,9 +44,9 @@ fn main() {
                 std::process::exit(2);
             }
         };
-        let r = match id {
-            "C01" => props::hist::replay_value(&props::c01::prop(), &v),
-            _ => Err(format!("unknown property {}", id)),
+        let r = match props::hist_prop(id) {
+            Some(hp) => props::hist::replay_value(&hp, &v),
+            None => Err(format!("unknown property {}", id)),
         };
         match r {
             Ok(None) => {
@@ -68,9 +68,9 @@ fn main() {
         Some("thorough") => Tier::Thorough,
         _ => Tier::Quick,
     };
-    let code = match id {
-        "C01" => props::c01::run(tier, seed),
-        _ => {
+    let code = match props::hist_prop(id) {
+        Some(hp) => props::hist::run(&hp, tier, seed),
+        None => {
             eprintln!("unknown property {}", id);
             2
         }
